@@ -663,6 +663,16 @@ func vfExerciseExpected(rep *verifkit.Report, tc *conformancev1.TestCase, desc s
 			r2.Requests[k] = vfMutateAny(rq)
 			ref.put(a, r2)
 			c.mustFail("echoed-request-altered", a, fmt.Sprintf("request #%d", k+1))
+			// same bytes, another message type (the four request types share their field numbers)
+			other := "type.googleapis.com/connectrpc.conformance.v1.ServerStreamRequest"
+			if strings.HasSuffix(rq.TypeUrl, "ServerStreamRequest") {
+				other = "type.googleapis.com/connectrpc.conformance.v1.UnaryRequest"
+			}
+			a = vfCloneRes(E)
+			r2 = ref.get(a)
+			r2.Requests[k] = &anypb.Any{TypeUrl: other, Value: append([]byte(nil), rq.Value...)}
+			ref.put(a, r2)
+			c.mustFail("echoed-request-of-another-type", a, fmt.Sprintf("request #%d", k+1))
 		}
 		if !ref.headers {
 			continue
